@@ -11,6 +11,12 @@ Tie H (+ a small T part):
                     (timeout, redo) on a grid incl. 0, None, negative, run on the real
                     Exchange/Exchanger/Exchangent with a stack double (real Stamper) and on the
                     model; dyadic times (k/8) so floats are exact.
+  messages        : the model interns messages as Z tokens and does not look at them; "a .tx is present"
+                    is `Some _` = Python `is not None`.  The harness maps tokens to message OBJECTS:
+                    plain ints (truthy) or, in the falsy families (a directed one that runs FIRST in
+                    every tier + every 3rd random history), present-but-falsy objects (packeting.Packet(),
+                    b'', odict(), bytearray(), Packet(packed=b''), {}, '', deque(), [], 0); what the stack
+                    double recorded is mapped back to tokens BY IDENTITY.
 """
 import inspect
 import itertools
@@ -23,6 +29,64 @@ import translate
 LEVEL = "proof"
 
 GRID = [None, 0.0, 0.5, 1.0, 2.0, -1.0]
+
+
+def _falsy_kinds():
+    from collections import deque
+    from ioflo.aio.proto import packeting
+    from ioflo.aid.odicting import odict
+    return [("packeting.Packet()", lambda: packeting.Packet()),
+            ("b''", lambda: b""),
+            ("odict()", lambda: odict()),
+            ("bytearray()", lambda: bytearray()),
+            ("packeting.Packet(packed=b'')", lambda: packeting.Packet(packed=b"")),
+            ("dict()", lambda: dict()),
+            ("''", lambda: ""),
+            ("deque()", lambda: deque()),
+            ("[]", lambda: []),
+            ("0", lambda: 0)]
+
+
+N_FALSY = 10
+
+
+class Msgs(object):
+    """token (int, what the Coq model sees) <-> message object handed to the implementation.
+    rot None: the token itself (a truthy int, or whatever int the history names).
+    rot k   : every token of the history gets its own PRESENT BUT FALSY object, kinds taken in order of first
+              use from the falsy list rotated by k (each kind at most once per history, so mapping the
+              objects recorded by the stack double back to tokens by identity is unambiguous even for
+              singletons like b'' or 0)."""
+    def __init__(self, rot=None):
+        self.rot = rot
+        self.assigned = []      # (token, kind name, object)
+        self.kinds = _falsy_kinds() if rot is not None else None
+
+    def obj(self, tok):
+        if tok is None or self.rot is None:
+            return tok
+        for t, _, o in self.assigned:
+            if t == tok:
+                return o
+        if len(self.assigned) >= len(self.kinds):
+            raise RuntimeError("C38 harness: more message tokens in one history than falsy kinds")
+        name, mk = self.kinds[(self.rot + len(self.assigned)) % len(self.kinds)]
+        o = mk()
+        if o is None or bool(o):
+            raise RuntimeError("C38 harness: %s is not a present-but-falsy message" % name)
+        self.assigned.append((tok, name, o))
+        return o
+
+    def tok(self, o):
+        if self.rot is None:
+            return o if isinstance(o, int) and not isinstance(o, bool) else -999
+        for t, _, x in self.assigned:
+            if x is o:
+                return t
+        return -999             # an object the history never handed to the exchange
+
+    def describe(self):
+        return None if self.rot is None else dict((str(t), n) for t, n, _ in self.assigned)
 
 
 class StackDouble(object):
@@ -67,10 +131,12 @@ def make(cls, stamp0, timeout, redo, tx):
     return stack, ex
 
 
-def run_impl(cls, stamp0, timeout, redo, tx, ops):
-    """returns (obs list, final timer fields) or ('ctor-error', class name)"""
+def run_impl(cls, stamp0, timeout, redo, tx, ops, rot=None):
+    """returns (obs list, final timer fields) or ('ctor-error', class name).  Messages in tx/ops are tokens;
+    the implementation gets Msgs(rot).obj(token), the observation lists tokens again."""
+    msgs = Msgs(rot)
     try:
-        stack, ex = make(cls, stamp0, timeout, redo, tx)
+        stack, ex = make(cls, stamp0, timeout, redo, msgs.obj(tx))
     except Exception as e:
         return ("ctor-error", type(e).__name__)
     obs = []
@@ -83,18 +149,18 @@ def run_impl(cls, stamp0, timeout, redo, tx, ops):
             elif op[0] == "proc":
                 ex.process()
             elif op[0] == "send":
-                ex.send(op[1])
+                ex.send(msgs.obj(op[1]))
             elif op[0] == "transmit":
-                ex.transmit(op[1])
+                ex.transmit(msgs.obj(op[1]))
             elif op[0] == "message":
-                ex.message(op[1])
+                ex.message(msgs.obj(op[1]))
             elif op[0] == "start":
-                ex.start(op[1])
+                ex.start(msgs.obj(op[1]))
             elif op[0] == "finish":
                 ex.finish()
         except ValueError:
             err = True
-        obs.append((list(stack.sent[n0:]), bool(ex.done), bool(ex.failed), err))
+        obs.append(([msgs.tok(m) for m in stack.sent[n0:]], bool(ex.done), bool(ex.failed), err))
     fin = [Fraction(ex.timer.start), Fraction(ex.timer.stop), Fraction(ex.redoTimer.start), Fraction(ex.redoTimer.stop)]
     return obs, fin
 
@@ -147,13 +213,36 @@ def prop_check(cls, stamp0, timeout, redo, sched):
     return None
 
 
-def lifecycle_check(cls, stamp0, timeout, redo, items):
+def lifecycle_messages(items, rot):
+    """token -> kind name of the falsy objects a lifecycle uses (None for plain int messages)"""
+    if rot is None:
+        return None
+    msgs = Msgs(rot)
+    for it in items:
+        if it == "S":
+            msgs.obj(7)
+        elif isinstance(it, tuple):
+            msgs.obj(it[1])
+    return msgs.describe()
+
+
+def lifecycle_check(cls, stamp0, timeout, redo, items, rot=None):
     """Executable statement over a whole lifecycle, implementation alone.  items: a number d = advance the
     stamp by d and (the driver) process the exchange if it is started and not done; "S" = start(7)
     (again).  Statement: a started, unfinished exchange fails exactly at the first processing stamp at
     which its timeout (> 0) has elapsed SINCE IT WAS LAST STARTED (never for a timeout <= 0), and
     otherwise retransmits its message exactly when the redo interval (> 0) has elapsed since the last
-    (re)transmission/start.  Returns None or a description."""
+    (re)transmission/start.  The message is whatever object was handed over (rot: present-but-falsy objects,
+    see Msgs; identity is compared).  Returns None or a description."""
+    msgs = Msgs(rot)
+    why = _lifecycle_check(cls, stamp0, timeout, redo, items, msgs)
+    if why and rot is not None:
+        why += "  [messages are present (not None) but falsy objects: %s]" % (
+            ", ".join("%s = %s" % (t, n) for t, n, _ in msgs.assigned))
+    return why
+
+
+def _lifecycle_check(cls, stamp0, timeout, redo, items, msgs):
     defaults = {"Exchange": (2.0, 0.5), "Exchanger": (2.0, 0.5), "Exchangent": (0.5, 0.1)}[cls]
     T = Fraction(timeout if timeout is not None else defaults[0])
     R = Fraction(redo if redo is not None else defaults[1])
@@ -168,7 +257,7 @@ def lifecycle_check(cls, stamp0, timeout, redo, items):
     for i, it in enumerate(items):
         try:
             if it == "S":
-                ex.start(7)
+                ex.start(msgs.obj(7))
                 started, ref_failed = True, False
                 ref_done = (cls == "Exchangent")     # Exchangent.start responds and finishes at once
                 last_start = last_redo = s
@@ -177,17 +266,18 @@ def lifecycle_check(cls, stamp0, timeout, redo, items):
                 # follow-up message through one of the sending entry points: goes on the wire now and
                 # becomes the exchange's latest message (what a redo must retransmit)
                 n0 = len(stack.sent)
-                getattr(ex, {"X": "send", "T": "transmit", "M": "message"}[it[0]])(it[1])
+                getattr(ex, {"X": "send", "T": "transmit", "M": "message"}[it[0]])(msgs.obj(it[1]))
                 latest = it[1]
-                if list(stack.sent[n0:]) != [it[1]]:
-                    return "item %d %r: put %r on the wire, expected [%r]" % (i, it, stack.sent[n0:], it[1])
+                onwire = [msgs.tok(m) for m in stack.sent[n0:]]
+                if onwire != [it[1]]:
+                    return "item %d %r: put %r on the wire, expected [%r]" % (i, it, onwire, it[1])
             else:
                 stack.stamper.advance(it)
                 s += Fraction(it)
                 n0 = len(stack.sent)
                 if started and not ex.done:
                     ex.process()
-                got = list(stack.sent[n0:])
+                got = [msgs.tok(m) for m in stack.sent[n0:]]
                 want = []
                 if started and not ref_done:
                     if T > 0 and s >= last_start + T:
@@ -270,8 +360,26 @@ def gen(ctx):
 
 
 def histories(ctx):
-    """yield (cls, stamp0, timeout, redo, tx, ops, label)"""
+    """yield (cls, stamp0, timeout, redo, tx, ops, label[, rot]); messages are tokens, rot selects the
+    present-but-falsy objects standing for them (see Msgs), absent = plain ints"""
     classes = {"Exchange": (2.0, 0.5), "Exchanger": (2.0, 0.5), "Exchangent": (0.5, 0.1)}
+    # 0. DIRECTED, FIRST, EVERY TIER: the exchange's message is present (not None) but falsy -- every falsy
+    #    kind as the started/constructed .tx and as a follow-up through every sending entry point
+    steps8 = []
+    for i in range(8):
+        steps8 += [("adv", 0.25), ("proc",)]
+    for rot in range(N_FALSY):
+        for t, r in [(2.0, 0.5), (0.0, 0.25), (1.0, 0.25), (None, None), (0.5, 1.0)]:
+            yield ("Exchanger", 0.0, t, r, None, [("start", 7)] + steps8 + steps8[:8], "falsy-message", rot)
+            yield ("Exchanger", 1.0, t, r, 5, [("adv", 0.5), ("start", None)] + steps8, "falsy-message", rot)
+            yield ("Exchange", 1.5, t, r, 5, list(steps8), "falsy-message", rot)
+            yield ("Exchangent", 0.0, t, r, 5, list(steps8), "falsy-message", rot)
+        for ep in ("send", "transmit", "message"):
+            yield ("Exchanger", 0.0, 0.0, 0.5, None,
+                   [("start", 7), ("adv", 0.125), (ep, 21)] + steps8[:8] + [(ep, 22)] + steps8[:8] + [(ep, None)]
+                   + steps8[:6], "falsy-message", rot)
+            yield ("Exchange", 0.0, 2.0, 0.25, None, [(ep, None), (ep, 21)] + steps8[:6] + [(ep, None)] + steps8[:4],
+                   "falsy-message", rot)
     # 1. grid of (timeout, redo) x schedules with constant small steps, processed each step
     for cls in ("Exchanger", "Exchange", "Exchangent"):
         for t, r in itertools.product(GRID, GRID):
@@ -312,7 +420,7 @@ def histories(ctx):
                     continue      # quick: all sequences of length <= 2, a seeded 40% of length 3
                 yield ("Exchanger", 0.0, t, r, None, list(ops), "small")
     # 3. random histories
-    for _ in range(ctx.n(300, 4000)):
+    for k in range(ctx.n(300, 4000)):
         cls = ctx.rng.choice(["Exchanger", "Exchanger", "Exchange", "Exchangent"])
         t = ctx.rng.choice(GRID + [dy(ctx.rng, 0, 6)])
         r = ctx.rng.choice(GRID + [dy(ctx.rng, 0, 3)])
@@ -330,7 +438,10 @@ def histories(ctx):
                 ops.append(("start", ctx.rng.choice([None, 8, 9])))
             else:
                 ops.append(("finish",))
-        yield (cls, dy(ctx.rng, 0, 4), t, r, tx, ops, "random")
+        if k % 3 == 2:       # every 3rd random history with falsy message objects (no extra rng draws)
+            yield (cls, dy(ctx.rng, 0, 4), t, r, tx, ops, "random-falsy", (k // 3) % N_FALSY)
+        else:
+            yield (cls, dy(ctx.rng, 0, 4), t, r, tx, ops, "random")
 
 
 def decimal_histories(ctx):
@@ -372,7 +483,15 @@ def decimal_histories(ctx):
 
 def lifecycles(ctx):
     """(cls, stamp0, timeout, redo, items) for the implementation-only search: plain start-then-schedule,
-    stamp advancing between construction and start, and start again after a failure / long after creation"""
+    stamp advancing between construction and start, and start again after a failure / long after creation.
+    A 6th element rot = the messages are present-but-falsy objects (see Msgs); that family comes first."""
+    for rot in range(N_FALSY):
+        for t, r in [(2.0, 0.5), (0.0, 0.25), (1.0, 0.25), (None, None), (-1.0, 0.5)]:
+            yield ("Exchanger", 0.0, t, r, ["S"] + [0.25] * 10, rot)
+            yield ("Exchanger", 1.0, t, r, [0.5, "S", 0.375, 0.0, 0.625, 1.0, 0.125, 0.5], rot)
+            yield ("Exchangent", 0.0, t, r, ["S"] + [0.25] * 4, rot)
+        for ep in ("T", "X", "M"):
+            yield ("Exchanger", 0.0, 0.0, 0.5, ["S", 0.125, (ep, 21), 0.25, 0.25, 0.25, 0.25, (ep, 22), 0.5, 0.5], rot)
     for cls in ("Exchanger", "Exchangent"):
         for t, r in itertools.product(GRID, GRID):
             yield (cls, 0.0, t, r, ["S"] + [0.25] * 12)
@@ -403,7 +522,10 @@ def lifecycles(ctx):
 
 def run(ctx):
     ctx.rule = ("histories = Exchange/Exchanger/Exchangent constructed with every (timeout, redo) of the grid "
-                "{None,0,0.5,1,2,-1}^2 (+ random dyadics), then ops advance/process/send/start/finish; run on "
+                "{None,0,0.5,1,2,-1}^2 (+ random dyadics), then ops advance/process/send/start/finish; messages are "
+                "tokens standing for plain ints or (directed family run first in every tier + every 3rd random history) "
+                "for present-but-falsy objects (Packet(), b'', odict(), bytearray(), {}, '', deque(), [], 0) mapped back "
+                "by identity; run on "
                 "the real classes with a stack double (real Stamper) and on the Coq model; compared per op "
                 "(messages queued on the stack, done, failed, ValueError) and on the final timer fields; "
                 "non-trivial = at least one process call after an advance")
@@ -423,22 +545,31 @@ def run(ctx):
     classes = {"Exchange": (2.0, 0.5), "Exchanger": (2.0, 0.5), "Exchangent": (0.5, 0.1)}
     cases, metas = [], []
     ctor_errors = []
-    for cls, s0, t, r, tx, ops, label in histories(ctx):
+    n_falsy = n_falsy_redo = 0
+    for h in histories(ctx):
+        cls, s0, t, r, tx, ops, label = h[:7]
+        rot = h[7] if len(h) > 7 else None
         if cls == "Exchangent" and r is None:
             continue   # its default RedoTimeout 0.1 is not dyadic: float rounding would differ from Q
-        res = run_impl(cls, s0, t, r, tx, ops)
+        res = run_impl(cls, s0, t, r, tx, ops, rot)
         nt = any(a[0] == "adv" and b[0] == "proc" for a, b in zip(ops, ops[1:]))
-        ctx.case({"cls": cls, "stamp0": s0, "timeout": t, "redo": r, "tx": tx, "ops": ops}, nontrivial=nt,
-                 kind="%s/%s" % (cls, label))
+        cj = {"cls": cls, "stamp0": s0, "timeout": t, "redo": r, "tx": tx, "ops": ops}
+        if rot is not None:
+            cj["falsy_messages_rot"] = rot
+        ctx.case(cj, nontrivial=nt, kind="%s/%s" % (cls, label))
         if res[0] == "ctor-error":
             ctor_errors.append((cls, s0, t, r, tx, res[1]))
             continue
         obs, fin = res
+        if rot is not None:
+            n_falsy += 1
+            n_falsy_redo += sum(len(o[0]) for o, p in zip(obs, ops) if p[0] == "proc")
         dt, dr = classes[cls]
         cases.append(("x_run %s %s %s %s %s %s %s" % (cqf(dt), cqf(dr), cqf(s0), copt(t, cqf), copt(r, cqf),
                                                      copt(tx, cz), clist([c_op(o) for o in ops], "op")),
                       "(%s, %s)" % (clist([c_obs(o) for o in obs], "obs"), clist([cq(x) for x in fin], "Q"))))
-        metas.append((cls, s0, t, r, tx, ops, obs, fin))
+        metas.append((cls, s0, t, r, tx, ops if rot is None else (ops, "falsy message objects, rotation %d" % rot),
+                      obs, fin))
     for c in ctor_errors[:3]:
         ctx.tie_broken("correspondence", "C38 constructor",
                        "%s(timeout=%r, redo=%r) raised %s; the model constructs it" % (c[0], c[2], c[3], c[5]))
@@ -472,14 +603,19 @@ def run(ctx):
     ctx.extra["decimal_retransmissions_seen"] = sum(len(o[0]) for m in dmetas for o in m[3])
     ctx.extra["decimal_failed_seen"] = sum(1 for m in dmetas if m[3] and m[3][-1][2])
     ctx.extra["ctor_errors"] = len(ctor_errors)
+    ctx.extra["falsy_message_histories"] = n_falsy
+    ctx.extra["falsy_message_retransmissions_seen"] = n_falsy_redo
     ctx.exhaustive = False
 
     def search():
         best = None
-        for cls, s0, t, r, items in lifecycles(ctx):
-            why = lifecycle_check(cls, s0, t, r, items)
+        for lc in lifecycles(ctx):
+            cls, s0, t, r, items = lc[:5]
+            rot = lc[5] if len(lc) > 5 else None
+            why = lifecycle_check(cls, s0, t, r, items, rot)
             if why and (best is None or len(items) < len(best["lifecycle"])):
                 best = {"class": cls, "stamp0": s0, "timeout": t, "redo_timeout": r, "lifecycle": items,
+                        "falsy_messages_rot": rot,
                         "redo_parameter_name": redo_param(), "why": why,
                         "legend": "number = advance the stamp, then process() if started and not done; 'S' = start(7); "
                                   "('T'|'X'|'M', m) = transmit(m) | send(m) | message(m)",
@@ -493,12 +629,16 @@ def run(ctx):
             i = 0
             while i < len(items):
                 cand = items[:i] + items[i + 1:]
-                if lifecycle_check(best["class"], best["stamp0"], best["timeout"], best["redo_timeout"], cand):
+                if lifecycle_check(best["class"], best["stamp0"], best["timeout"], best["redo_timeout"], cand,
+                                   best["falsy_messages_rot"]):
                     items = cand
                 else:
                     i += 1
             best["lifecycle"] = items
-            best["why"] = lifecycle_check(best["class"], best["stamp0"], best["timeout"], best["redo_timeout"], items)
+            best["why"] = lifecycle_check(best["class"], best["stamp0"], best["timeout"], best["redo_timeout"], items,
+                                          best["falsy_messages_rot"])
+            best["messages"] = (lifecycle_messages(items, best["falsy_messages_rot"])
+                                or "plain ints: start(7), follow-ups as written")
         return best
 
     ctx.settle(search)
